@@ -1,6 +1,6 @@
 ---- MODULE UriModelImpl ----
 (* C30 I-layer: what AnyP::Uri::parse decides TODAY for the "simple" subset of absolute-form targets (one authority
-   without userinfo oddities, reg-name host containing a letter g-z / "_" / "-" so that it is certainly not numeric),
+   without userinfo oddities, reg-name host containing a letter g-w, y, z / "_" / "-" so that it is certainly not numeric),
    including the named deviation
      D1 (F10) the port of a non-CONNECT target is read with atoi(): sign, trailing bytes, and wrap-around modulo 2^32
    Outside the simple subset the layer says nothing (TRUE). *)
@@ -25,7 +25,8 @@ Atoi(t) ==
   ELSE IF ~neg THEN (IF a[1] = 0 THEN a[2] ELSE 0)
   ELSE (IF a[1] = 65535 /\ a[2] > 0 THEN 65536 - a[2] ELSE 0)          \* -(v) mod 2^32 in 1..65535
 NameChar(b, chk) == (b >= 97 /\ b <= 122) \/ IsDigit(b) \/ b \in {45, 46} \/ (b = 95 /\ ~chk)
-SurelyName(h) == \E i \in 1..Len(h) : (h[i] >= 103 /\ h[i] <= 122) \/ h[i] \in {45, 95}
+\* a letter that cannot occur in a numeric address (not a-f, not the x of 0x..), "_" or "-"
+SurelyName(h) == \E i \in 1..Len(h) : (h[i] >= 103 /\ h[i] <= 122 /\ h[i] # 120) \/ h[i] \in {45, 95}
 RECURSIVE StripDots(_)
 StripDots(h) == IF Len(h) > 0 /\ h[Len(h)] = 46 THEN StripDots(SubSeq(h, 1, Len(h) - 1)) ELSE h
 \* [simple, ok, host, port]
